@@ -247,6 +247,37 @@ fn taxonomy_table(t: &mut Tally) {
             known: None,
         });
     }
+    // the kind alone fixes code and status: whatever the payload of the two payload-carrying kinds is — every flavour of
+    // io::Error, an io::Error or a SignatureError inside InternalServiceError — the answer is InternalFailure / 500
+    for n in 0..13u8 {
+        let payloads: Vec<(String, SignatureError, Kind)> = vec![
+            (format!("IO(io kind #{})", n), SignatureError::IO(crate::model::io_error_of(n, "io-kind-probe")), Kind::IO),
+            (format!("From<io::Error>(io kind #{})", n), crate::model::io_error_of(n, "io-kind-probe").into(), Kind::IO),
+            (format!("InternalServiceError(Box<io kind #{}>)", n), SignatureError::InternalServiceError(Box::new(crate::model::io_error_of(n, "io-kind-probe"))), Kind::InternalServiceError),
+            (format!("From<BoxError>(Box<io kind #{}>)", n), (Box::new(crate::model::io_error_of(n, "io-kind-probe")) as tower::BoxError).into(), Kind::InternalServiceError),
+            (
+                format!("InternalServiceError(Box<SignatureError kind #{}>)", n % 12),
+                SignatureError::InternalServiceError(Box::new(make_sig_error(Kind::from_index(n % 12), "inner"))),
+                Kind::InternalServiceError,
+            ),
+        ];
+        for (what, e, kind) in payloads {
+            let d = describe_error(Box::new(e));
+            t.eval();
+            if !d.is_signature_error || d.kind != kind || d.code != "InternalFailure" || d.status != 500 {
+                t.violate(Violation {
+                    monitor: "taxonomy-table".into(),
+                    signature: format!("taxonomy-table|payload|{}", kind.name()),
+                    detail: format!("{}: kind {} code {:?} status {} — a payload must not change the kind's code and status (InternalFailure / 500)", what, d.kind.name(), d.code, d.status),
+                    case: None,
+                    extra: J::Null,
+                    known: None,
+                });
+            } else {
+                t.count("taxonomy_payload_rows_checked");
+            }
+        }
+    }
     for k in 0..12u8 {
         let kind = Kind::from_index(k);
         let boxed: tower::BoxError = Box::new(make_sig_error(kind, "boxed-probe"));
